@@ -10,7 +10,9 @@
 namespace gs {
 
 // op flag bits (field y of mutator ops)
-enum { F_FORCE = 1, F_NOLABEL = 2, F_FLIP = 4, F_EXISTING = 8 };
+// F_NOSWEEP: no observer is called after this step (observer schedules are part of the history: a cache keyed on too
+// little state is only stale if the observer was NOT called between two mutations)
+enum { F_FORCE = 1, F_NOLABEL = 2, F_FLIP = 4, F_EXISTING = 8, F_NOSWEEP = 256 };
 
 struct GenCfg {
     Kind kind = SIMPLE;
